@@ -316,6 +316,14 @@ func challengeParamsKeyedLowerCase(c *core.Ctx, rule string) {
 					continue
 				}
 				_, fld, isF := facts.FieldOf(facts.Resolve(mu.Map))
+				if !isF {
+					// the map handed to a private helper that fills it
+					for _, cx := range contextsOf(b, 2) {
+						if _, f2, ok := facts.FieldOf(facts.Resolve(cx.up(mu.Map))); ok {
+							fld, isF = f2, true
+						}
+					}
+				}
 				if !isF || fld != "params" {
 					continue
 				}
@@ -373,24 +381,45 @@ func knownActionOnlyForKnownScopes(c *core.Ctx, rule string) {
 				continue
 			}
 			n++
-			// (i) the result is tested against the unknown action
+			// (i) the result is tested against the unknown action (directly, or after
+			// being merged with a default in a phi)
 			tested := false
-			for _, ref := range *call.Referrers() {
-				if bo, ok := ref.(*ssa.BinOp); ok && (bo.Op == token.EQL || bo.Op == token.NEQ) {
-					tested = true
+			var isTested func(v ssa.Value, d int)
+			isTested = func(v ssa.Value, d int) {
+				if v.Referrers() == nil || d > 2 {
+					return
+				}
+				for _, ref := range *v.Referrers() {
+					switch x := ref.(type) {
+					case *ssa.BinOp:
+						if x.Op == token.EQL || x.Op == token.NEQ {
+							tested = true
+						}
+					case *ssa.Phi:
+						isTested(x, d+1)
+					}
 				}
 			}
-			// (ii) dominated by isKnown() on the scope whose Action is parsed
+			isTested(call, 0)
+			// (ii) dominated by isKnown() on the scope whose Action is parsed — in
+			// every calling context when the computation sits in a private helper
 			guarded := false
 			if b, fld, isF := facts.FieldOf(facts.Resolve(call.Call.Args[0])); isF && fld == "Action" {
-				owner := norm(b)
-				for _, cd := range facts.CondsAtDeep(call.Block()) {
-					kc, ok := cd.V.(*ssa.Call)
-					if !ok || !cd.Pos || isKnown == nil || kc.Call.StaticCallee() != isKnown || len(kc.Call.Args) == 0 {
-						continue
+				guarded = true
+				for _, cx := range contextsOf(call.Block(), 3) {
+					owner := norm(cx.up(b))
+					okCx := false
+					for _, cd := range cx.Conds {
+						kc, ok := cd.V.(*ssa.Call)
+						if !ok || !cd.Pos || isKnown == nil || kc.Call.StaticCallee() != isKnown || len(kc.Call.Args) == 0 {
+							continue
+						}
+						if norm(kc.Call.Args[0]) == owner || norm(cx.up(kc.Call.Args[0])) == owner {
+							okCx = true
+						}
 					}
-					if norm(kc.Call.Args[0]) == owner {
-						guarded = true
+					if !okCx {
+						guarded = false
 					}
 				}
 			}
